@@ -59,7 +59,7 @@ struct Obj {
 	// fd
 	int rfd = -1, wfd = -1; bool reg = false; int fprio = 0; int events = 0; int64_t bytes = 0; bool peer_closed = false;
 	bool neg_pending = false; uint32_t neg_gen = 0; int neg_fd = -1;   // the callback closed its descriptor and will return a negative value
-	bool retneg_armed = false; int64_t ready_since = -1; int64_t fdl = -1; bool always_ready = false;
+	bool retneg_armed = false, retneg_keep_open = false; int64_t ready_since = -1; int64_t fdl = -1; bool always_ready = false;
 	bool fdl_at_poll = false;
 	// qb_loop_poll_mod of an entry that is already queued leaves it in the queue of its old level and takes effect at the
 	// next queueing: until its callback runs the model does not say which of the two levels holds it
@@ -90,7 +90,7 @@ struct St {
 	std::deque<int> sig_inflight;                             // deliveries written to the signal pipe, not yet read by the loop
 	int sigpipe_rfd = -1;
 	int64_t clock_res_ns = 1;
-	bool eintr_just_fired = false;
+	bool eintr_just_fired = false; uint64_t clock_since_epoll = 0;
 	uint64_t callbacks = 0;
 	// C10 bookkeeping per level
 	int64_t disp_iter[3] = { 0, 0, 0 };       // dispatches in the current iteration
@@ -105,8 +105,8 @@ static St *Lp;
 #define L (*Lp)
 
 static int p_del_queued_timer, p_del_queued_fd, p_del_queued_job, p_del_queued_sig, p_self_del, p_readd_in_cb, p_stale_handle,
-	p_slot_reuse_stale, p_fd_reuse, p_two_sig_then_del, p_retneg, p_close_retneg, p_number_reused_in_cb, p_default_loop, p_sig_mod, p_fd_mod_data, p_stop, p_throttle50, p_ms31, p_ms32, p_overflow, p_equal_expiry,
-	p_timer_fired, p_long_run, p_eintr_epoll, p_async_sig, p_hup, p_busy;
+	p_slot_reuse_stale, p_fd_reuse, p_two_sig_then_del, p_retneg, p_retneg_open, p_close_retneg, p_number_reused_in_cb, p_default_loop, p_sig_mod, p_fd_mod_data, p_stop, p_throttle50, p_ms31, p_ms32, p_overflow, p_equal_expiry,
+	p_timer_fired, p_long_run, p_eintr_epoll, p_eintr_retry, p_async_sig, p_hup, p_busy;
 
 static void init(const char *prop)
 {
@@ -122,6 +122,7 @@ static void init(const char *prop)
 	p_fd_reuse = counter_id("probe", "fd_number_reused");
 	p_two_sig_then_del = counter_id("probe", "two_queued_deliveries_then_delete");
 	p_retneg = counter_id("probe", "fd_callback_returned_negative");
+	p_retneg_open = counter_id("probe", "fd_callback_returned_negative_and_kept_the_descriptor_open");
 	p_default_loop = counter_id("probe", "loop_named_as_NULL_default_loop");
 	p_sig_mod = counter_id("probe", "signal_handler_modified");
 	p_fd_mod_data = counter_id("probe", "poll_mod_with_new_callback_data");
@@ -136,6 +137,7 @@ static void init(const char *prop)
 	p_timer_fired = counter_id("probe", "timer_dispatched");
 	p_long_run = counter_id("probe", "run_longer_than_1000_iterations");
 	p_eintr_epoll = counter_id("probe", "epoll_wait_eintr");
+	p_eintr_retry = counter_id("stat", "epoll_wait_restarted_by_the_driver_after_eintr");
 	p_async_sig = counter_id("probe", "signal_delivered_inside_loop_code");
 	p_hup = counter_id("probe", "fd_peer_closed");
 	p_busy = counter_id("probe", "busy_callback");
@@ -316,6 +318,7 @@ static int32_t fd_cb(int32_t fd, int32_t revents, void *data)
 		// descriptor meanwhile, the new registration is a different one and closing its descriptor would be a misuse
 		if (o.reg && rg->gen == o.gen) {
 			o.reg = false;
+			if (o.retneg_keep_open) { count(p_retneg_open); o.ready_since = -1; return NEGS[(size_t)(o.invoked + (uint64_t)o.id) % 4]; }
 			if (o.rfd >= 0) { close(o.rfd); o.rfd = -1; }
 			if (o.wfd >= 0) { close(o.wfd); o.wfd = -1; }
 			o.bytes = 0; o.peer_closed = false; o.ready_since = -1;
@@ -558,6 +561,7 @@ static void do_op(size_t oi, int from_obj)
 	case K_FD_RETNEG:
 		if (o.type != O_FD || !o.reg || from_obj != tgt) break;
 		o.retneg_armed = true;
+		o.retneg_keep_open = (op.a[3] & 1) != 0;     // "stop watching, but the descriptor stays open" is just as legal
 		break;
 	case K_FD_CLOSE_RETNEG:
 		// the other usual pattern: close first, do more work (which may open and register descriptors that get the
@@ -676,11 +680,18 @@ static void c10_iteration_boundary()
 static void on_epoll_wait(int timeout)
 {
 	L.cb_since_epoll = 0;
-	if (L.eintr_just_fired) { L.eintr_just_fired = false; count(p_eintr_epoll); return; }    // a retry, not a new iteration
-	c10_iteration_boundary();
-	L.iter++;
-	ev(350, timeout, L.iter);
-	if (L.iter == 1001) count(p_long_run);
+	// a wait restarted after EINTR is not a new iteration, but it is a wait: how long it may last is judged like any other
+	// (whether the driver restarted the wait itself or the loop went round its other sources first - it has then read the
+	// clock - the interrupted wait has reported no descriptor: for the bounds counted in iterations the two are one)
+	bool retry = L.eintr_just_fired;
+	if (retry) { L.eintr_just_fired = false; count(p_eintr_epoll); if (L.clock_since_epoll == 0) count(p_eintr_retry); }
+	L.clock_since_epoll = 0;
+	if (!retry) {
+		c10_iteration_boundary();
+		L.iter++;
+		ev(350, timeout, L.iter);
+		if (L.iter == 1001) count(p_long_run);
+	}
 	u128 now = mono_now();
 	// timers the loop could have noticed by now
 	bool any_rep = false; u128 E = 0;
@@ -689,13 +700,13 @@ static void on_epoll_wait(int timeout)
 		if (o.type != O_TIMER || !o.tpend || o.unrep) continue;
 		if (!any_rep || o.expiry < E) E = o.expiry;
 		any_rep = true;
-		if (o.first_iter_expired < 0 && o.expiry < now) { o.first_iter_expired = L.iter; o.tdl = deadline(o.tprio); }
+		if (!retry && o.first_iter_expired < 0 && o.expiry < now) { o.first_iter_expired = L.iter; o.tdl = deadline(o.tprio); }
 	}
-	for (size_t i = 0; i < L.objs.size(); i++) {
+	for (size_t i = 0; i < L.objs.size() && !retry; i++) {
 		Obj &o = L.objs[i];
 		if (o.type == O_FD && o.reg && o.ready_since >= 0 && o.fdl_at_poll) { o.fdl_at_poll = false; int64_t d = deadline(o.fprio) + 1; if (d > o.fdl) o.fdl = d; }
 	}
-	if (timeout == 50 && L.jobs_pending_total > 0) count(p_throttle50);
+	if (!retry && timeout == 50 && L.jobs_pending_total > 0) count(p_throttle50);
 	if (any_rep && !L.stopped) {
 		// C09: while a timer is pending the loop never blocks indefinitely and never past the earliest
 		// expiry plus one clock tick (or the 50 ms pause when jobs were just queued), 1 ms rounding
@@ -710,6 +721,7 @@ static void on_epoll_wait(int timeout)
 				     timeout, (unsigned long long)(wake - lim));
 		}
 	}
+	if (retry) return;
 	// liveness of everything else, in iterations
 	if ((L.iter & 3) == 0 || L.iter >= L.max_iter) {
 		for (size_t i = 0; i < L.objs.size() && !failed(); i++) {
@@ -771,9 +783,10 @@ static void on_fault(int kind)
 	}
 }
 static void on_pipe(int rfd, int) { if (L.sigpipe_rfd < 0) L.sigpipe_rfd = rfd; }
-static void on_call(uint32_t)
+static void on_call(uint32_t site)
 {
 	L.ncalls++;
+	if (site == S_CLOCK) L.clock_since_epoll++;
 	if (L.in_async || (L.atcall.empty() && L.deferred_async.empty())) return;
 	auto it = L.atcall.find(L.ncalls);
 	while (it != L.atcall.end() && it->first == L.ncalls) { L.deferred_async.push_back(it->second); ++it; }
@@ -933,7 +946,7 @@ static void gen(const char *prop, RunSpec &spec)
 					if (r.chance(2, 3)) p.add(0, K_FD_WRITE, r.chance(1, 2) ? t : trg, nth + (int64_t)r.below(2), t2, r.below(8));
 				}
 			}
-			else if (y < 88) { p.add(0, K_FD_RETNEG, t, nth, t); if (r.chance(1, 2)) { int64_t t2 = nj + nt + (int64_t)r.below((uint64_t)nf); p.add(0, K_FD_OPEN, trg, nth + 1, t2); p.add(0, K_FD_ADD, trg, nth + 1, t2, r.below(3)); } }
+			else if (y < 88) { p.add(0, K_FD_RETNEG, t, nth, t, r.below(2)); if (r.chance(1, 2)) { int64_t t2 = nj + nt + (int64_t)r.below((uint64_t)nf); p.add(0, K_FD_OPEN, trg, nth + 1, t2); p.add(0, K_FD_ADD, trg, nth + 1, t2, r.below(3)); } }
 			else { if (r.chance(1, 2)) p.add(0, K_FD_PEER_CLOSE, trg, nth, t); else p.add(0, K_FD_PEER_CLOSE, -2, (int64_t)r.below(3000000000ULL), t); }
 		} else if (x < wj + wt + wf + ws) {
 			int64_t t = nj + nt + nf + (int64_t)r.below((uint64_t)ns);
